@@ -3599,7 +3599,7 @@ def gen_steps_tuner():
            "import DspVerif.Gen.StepsBase\n" + STEPS_HEAD[0], STEPS_HEAD[1]]
     rec = record(clang_ast(tu, "Tuner"), "Tuner")
     # the sample counter must be 64 bit wide: with `int` it wraps after 2^31 samples (seeded change C14-D)
-    table = {"_fs": "int", "_freq": "real_t", "_periodic": "bool", "_phase": "long long"}
+    table = TUNER_TABLE
     ms = [m for m in methods_named(rec, "process") if len(params_of(m)) == 1]
     if len(ms) != 1 or canon_type(strip_type(qt(params_of(ms[0])[0]))) not in ARRAY_CX_T:
         raise Unsupported("Tuner::process(const arr_cmplx&) not found")
@@ -4317,7 +4317,7 @@ def gen_steps_median():
     out += texts
     # --- MedianFilter::process
     rec = record(clang_ast(MED_TU, "MedianFilter"), "MedianFilter")
-    table = {"_d": "arr_real", "_s": "arr_real", "_i": "int", "_n": "const int"}
+    table = MEDIAN_TABLE
     ms = [d for d in clang_ast(MED_TU, "MedianFilter::process") if d.get("kind") == "CXXMethodDecl" and d.get("name") == "process" and
           any(c.get("kind") == "CompoundStmt" for c in d.get("inner", []))]
     if len(ms) != 1 or len(params_of(ms[0])) != 1 or canon_type(strip_type(qt(params_of(ms[0])[0]))) not in ARRAY_REAL_T:
@@ -4404,6 +4404,560 @@ def forwards_to_array(rec, name, target):
 
 
 # ------------------------------------------------------------------------------------------
+# Constructors: `C::C(params) : mem-initialisers { body }`  -->  def cCtor (params) : Except String (CObj α)
+#
+# Every data member becomes a Lean local `m_<field>`, bound in the order C++ initialises the members (declaration order:
+# mem-initialiser, else the default member initialiser of the declaration, else — class types — the default constructor), then
+# the body runs (assignments to members rebind the local, DSPLIB_ASSERT / DSPLIB_THROW give `.error`), and the object is the
+# record of the locals.  A member read before it is initialised, or left without a value on some path, is refused.
+
+
+class CtorTr(StepTr):
+    def __init__(self, members, user_calls=None, rec=None, obj_pred=None, subctors=None):
+        super().__init__(members=members, single=True, user_calls=user_calls or steps_user_calls(), effect=True)
+        self.bound = set()
+        self.fallible = True
+        self.rec = rec
+        self.obj_pred = obj_pred       # None: the object is `*this`; else a predicate on AST nodes (`*_d` of a pimpl class)
+        self.subctors = subctors or {}  # canonical C++ type of a sub-object -> dict(lean=…, sig=…, assign=[signatures of operator=])
+        self.uses_trunc = False
+        self.stmt_hooks = []
+
+    def is_obj(self, n):
+        if self.obj_pred is not None:
+            return self.obj_pred(n)
+        return super().is_obj(n)
+
+    def e_FloatingLiteral(self, n):
+        """a floating literal: exact when it is k/2^j, else the exact value of the shortest DECIMAL text denoting the same double,
+        as a quotient of integers (C++ takes the double nearest to it; rounding is not modelled anywhere)"""
+        v = n["value"]
+        self.literals.append(v)
+        d = dyadic(float(v))
+        if d is not None:
+            return d
+        from fractions import Fraction
+        # clang prints 17 significant digits; the shortest decimal that denotes the same double is the literal as written
+        fr = Fraction(repr(float(v)))
+        if float(fr) != float(v) or fr.denominator > 10 ** 15:
+            raise Unsupported("floating literal %s is not a short decimal" % v)
+        return "((Fn.ofInt (%d : Int)) / (Fn.ofInt (%d : Int)))" % (fr.numerator, fr.denominator)
+
+    def cast(self, n):
+        if n.get("castKind") == "FloatingToIntegral":
+            # `int(v)` / `(int) v` / implicit: truncation towards zero (undefined when the value does not fit): the function
+            # `truncToInt` is a parameter of the generated constructor
+            if canon_type(strip_type(qt(n))) != "int" or kind_of_type(qt(n["inner"][0])) != "real":
+                raise Unsupported("conversion %s -> %s" % (qt(n["inner"][0]), qt(n)))
+            self.uses_trunc = True
+            return "(truncToInt %s)" % self.e(n["inner"][0])
+        return super().cast(n)
+
+    def subobj_value(self, n, lt):
+        """`T(args)` / `{args}` for a sub-object member whose class has a generated constructor"""
+        while n.get("kind") in ("MaterializeTemporaryExpr", "CXXBindTemporaryExpr", "ExprWithCleanups", "ParenExpr") or \
+                (n.get("kind") in ("CXXFunctionalCastExpr", "ImplicitCastExpr") and n.get("castKind") in ("ConstructorConversion", "NoOp")) or \
+                (n.get("kind") == "InitListExpr" and len(n.get("inner", [])) == 1):
+            n = n["inner"][0]
+        ct = canon_type(strip_type(qt(n)))
+        if n.get("kind") not in ("CXXConstructExpr", "CXXTemporaryObjectExpr") or ct not in self.subctors or self.subctors[ct]["ret"] != lt:
+            raise Unsupported("value of type %s (%s) for a sub-object member of Lean type %s" % (qt(n), n.get("kind"), lt))
+        sc = self.subctors[ct]
+        if canon_type(n.get("ctorType", {}).get("qualType", "")) != sc["sig"]:
+            raise Unsupported("construction of %s through %s" % (ct, n.get("ctorType", {}).get("qualType")))
+        args = [self.e(a) for a in n.get("inner", []) if a.get("kind") != "CXXDefaultArgExpr"]
+        return "(%s %s)" % (sc["lean"], " ".join(args))
+
+    def mvar(self, name):
+        return "m_" + self.members[name][0]
+
+    def mref(self, name, write=False):
+        if name not in self.members:
+            raise Unsupported("member %s is not in the unit's member table" % name)
+        (self.writes if write else self.reads).add(name)
+        v = self.mvar(name)
+        if not write and v not in self.bound:
+            raise Unsupported("member %s is read before it is initialised (or is not initialised on every path)" % name)
+        return v
+
+    def set_member(self, m, val):
+        self.mref(m, write=True)
+        v = self.mvar(m)
+        if v not in self.bound:
+            self.declare(v, self.members[m][1])
+            return "let %s : %s := %s\n" % (v, self.members[m][1], val)
+        self.note_assigned(v)
+        return "let %s := %s\n" % (v, val)
+
+    def bool_value(self, n):
+        """Lean `Bool` for a C++ expression of type bool"""
+        u = unwrap(n)
+        if u.get("kind") == "CXXBoolLiteralExpr":
+            return "true" if u["value"] else "false"
+        if kind_of_type(qt(n)) != "bool":
+            raise Unsupported("value of type %s for a bool" % qt(n))
+        return "(decide %s)" % self.e(n)
+
+    def assign(self, lhs, r, whole=False):
+        m = self.member_of_obj(lhs)
+        if m is not None and self.members.get(m, (0, ""))[1] == "Bool":
+            raise Unsupported("assignment to the bool member %s outside CtorTr.stmts" % m)
+        return super().assign(lhs, r, whole=whole)
+
+    def stmts(self, lst, final, throws=False):
+        if lst:
+            s = lst[0]
+            k = s.get("kind")
+            for h in self.stmt_hooks:
+                t = h(self, s)
+                if t is not None:
+                    return t + self.stmts(lst[1:], final)
+            su = s
+            while su.get("kind") == "ExprWithCleanups" and len(su.get("inner", [])) == 1:
+                su = su["inner"][0]
+            if su.get("kind") == "CXXOperatorCallExpr" and self.callee_name(su) == "operator=":
+                m = self.member_of_obj(su["inner"][1])
+                ct = canon_type(strip_type(qt(su["inner"][1])))
+                if m is not None and ct in self.subctors:
+                    sc = self.subctors[ct]
+                    if canon_type(qt(unwrap(su["inner"][0]))) not in sc["assign"]:
+                        raise Unsupported("assignment to the sub-object %s through %s" % (m, qt(unwrap(su["inner"][0]))))
+                    v = self.subobj_value(su["inner"][2], self.members[m][1])
+                    return self.flush() + self.set_member(m, v) + self.stmts(lst[1:], final)
+            if k == "ReturnStmt":
+                if s.get("inner"):
+                    raise Unsupported("constructor returns a value")
+                return self.obj_text()
+            if k == "BinaryOperator" and s.get("opcode") == "=":
+                m = self.member_of_obj(s["inner"][0])
+                if m is not None and self.members.get(m, (0, ""))[1] == "Bool":
+                    v = self.bool_value(s["inner"][1])
+                    return self.flush() + self.set_member(m, v) + self.stmts(lst[1:], final)
+        if not lst:
+            return self.obj_text() if final == CTOR_END else final
+        return super().stmts(lst, final)
+
+    def obj_text(self):
+        fs = []
+        for m, (f, lt, _) in self.members.items():
+            if self.mvar(m) not in self.bound:
+                raise Unsupported("member %s has no value at the end of the constructor (on some path)" % m)
+            fs.append("%s := %s" % (f, self.mvar(m)))
+        return ("{ %s }" if getattr(self, "pure", False) else "(.ok { %s })") % ", ".join(fs)
+
+    def init_value(self, m, n):
+        """Lean value of the initialiser expression `n` for member `m`"""
+        lt = self.members[m][1]
+        k = n.get("kind")
+        if k in ("ExprWithCleanups",):
+            return self.init_value(m, n["inner"][0])
+        if k == "InitListExpr":
+            inner = n.get("inner", [])
+            if lt in ("α", "Int", "Bool") and len(inner) == 1:
+                return self.init_value(m, inner[0])
+            if lt == "Cx α":
+                return self.e(n)
+            raise Unsupported("braced initialiser with %d elements for member %s : %s" % (len(inner), m, lt))
+        if k == "ParenListExpr" and len(n.get("inner", [])) == 1:
+            return self.init_value(m, n["inner"][0])
+        if lt == "Bool":
+            return self.bool_value(n)
+        if lt in ("α", "Int", "Cx α"):
+            if lean_type_of(qt(n)) != lt:
+                raise Unsupported("initialiser of type %s for member %s : %s" % (qt(n), m, lt))
+            return self.e(n)
+        if lt in ("Array α", "Array (Cx α)"):
+            return self.array_init(m, n)
+        if lt in [sc["ret"] for sc in self.subctors.values()]:
+            return self.subobj_value(n, lt)
+        raise Unsupported("initialiser for member %s of type %s" % (m, self.members[m][2]))
+
+    def array_init(self, m, n):
+        lt = self.members[m][1]
+        u = unwrap(n)
+        if u.get("kind") != "CXXConstructExpr" or lean_type_of(qt(u)) != lt:
+            raise Unsupported("initialiser of the array member %s: %s of type %s" % (m, u.get("kind"), qt(u)))
+        ct = canon_type(u.get("ctorType", {}).get("qualType", ""))
+        args = [a for a in u.get("inner", []) if a.get("kind") != "CXXDefaultArgExpr"]
+        if ct == "void (int)" and len(args) == 1:
+            # explicit base_array(int n) : _vec(n, 0)   (PINNED in unit StepsArray)
+            self.prims.add("arrNew")
+            return "(arrNew %s %s)" % (self.arr_default(lt), self.e(args[0]))
+        if ct in ("void ()", "void () noexcept") and not args:
+            default_array_ctor_is_empty()
+            return "#[]"          # `base_array() = default;` with `std::vector<T> _vec;` (CHECKED): the empty array
+        return self.e(u)            # copy / move construction from an array expression (StepTr.e_CXXConstructExpr)
+
+    def init_phase(self, ctor):
+        """the mem-initialiser phase: text of the `let`s, members in the order clang initialises them"""
+        fields = {c["name"]: c for c in self.rec["inner"] if c.get("kind") == "FieldDecl"}
+        order = [c["name"] for c in self.rec["inner"] if c.get("kind") == "FieldDecl"]
+        text = ""
+        seen = []
+        for ci in [c for c in ctor.get("inner", []) if c.get("kind") == "CXXCtorInitializer"]:
+            if "anyInit" not in ci:
+                raise Unsupported("base-class / delegating initialiser in the constructor")
+            m = ci["anyInit"].get("name")
+            if m not in self.members:
+                raise Unsupported("initialiser for %s, which is not in the unit's member table" % m)
+            seen.append(m)
+            inner = [c for c in ci.get("inner", [])]
+            if len(inner) != 1:
+                raise Unsupported("initialiser of %s with %d expressions" % (m, len(inner)))
+            n = inner[0]
+            if n.get("kind") == "CXXDefaultInitExpr":
+                fi = [c for c in fields[m].get("inner", []) if c.get("kind") not in ("FullComment",)]
+                if len(fi) != 1:
+                    raise Unsupported("default member initialiser of %s not found" % m)
+                n = fi[0]
+            val = self.init_value(m, n)
+            text += self.flush() + self.set_member(m, val)
+        if seen != [m for m in order if m in seen]:
+            raise Unsupported("constructor initialisers are not in declaration order: %s" % seen)
+        return text
+
+
+CTOR_END = "\x00CTOR_END\x00"
+
+_dflt_arr = []
+
+
+def default_array_ctor_is_empty():
+    """`base_array() = default;` and the only data member `std::vector<T> _vec;` has no default member initialiser"""
+    if not _dflt_arr:
+        ds = [d for d in clang_ast(ARR_TU, "base_array::base_array") if d.get("kind") == "CXXConstructorDecl" and not params_of(d)]
+        fs = [d for d in clang_ast(ARR_TU, "base_array::_vec") if d.get("kind") == "FieldDecl" and d.get("name") == "_vec"]
+        ok = len(ds) == 1 and ds[0].get("explicitlyDefaulted") == "default" and len(fs) == 1 and \
+            canon_type(qt(fs[0])) == "std::vector<T>" and not [c for c in fs[0].get("inner", []) if c.get("kind") != "FullComment"]
+        rec = record(clang_ast(ARR_TU, "base_array"), "base_array")
+        ok = ok and [c["name"] for c in rec["inner"] if c.get("kind") == "FieldDecl"] == ["_vec"]
+        _dflt_arr.append(ok)
+    if not _dflt_arr[0]:
+        raise Unsupported("base_array<T>: the default constructor is not `= default` over the single member `std::vector<T> _vec;`")
+    return True
+
+
+def gen_ctor(rec, ctor, table, lean, cxx_name, obj_struct, want_sig, doc_extra="", user_calls=None, emit_struct=True,
+             subobj_types=None, setup=None, subctors=None, obj_pred=None, own_init=True, pure=False, ctor_label=None,
+             defaults_from=None):
+    """one constructor -> ([texts], CtorTr).  `want_sig`: canonical C++ signature of the constructor (CHECKED).
+    `rec` holds the data members of the OBJECT (the class itself, or the pimpl record); `own_init` = False: the constructor's own
+    mem-initialiser list is not the object's (pimpl: checked by the caller, the object is created by a statement hook);
+    `pure`: a constructor that cannot throw -> the generated function returns the record itself."""
+    order = check_members(rec, table, cxx_name)
+    members = {}
+    for m in order:
+        lt = lean_type_of(table[m], subobj_types)
+        if lt is None:
+            raise Unsupported("%s::%s: C++ type %s has no Lean counterpart" % (cxx_name, m, table[m]))
+        members[m] = (m.lstrip("_").rstrip("_"), lt, "%s %s" % (table[m], m))
+    if canon_type(qt(ctor)) != want_sig:
+        raise Unsupported("constructor of %s has signature `%s`, the unit expects `%s`" % (cxx_name, canon_type(qt(ctor)), want_sig))
+    calls = steps_user_calls()
+    eps = EpsCall()
+    calls["eps"] = eps
+    calls.update(user_calls or {})
+    tr = CtorTr(members, user_calls=calls, rec=rec, obj_pred=obj_pred, subctors=subctors)
+    tr.pure = pure
+    if pure:
+        tr.fallible = False
+    tr.name_hint = lean
+    ps = []
+    defaults = []
+    dparams = params_of(defaults_from) if defaults_from is not None else params_of(ctor)
+    if [p_.get("name") for p_ in dparams] != [p_.get("name") for p_ in params_of(ctor)]:
+        raise Unsupported("%s constructor: parameter names of the template pattern differ" % cxx_name)
+    for p_, dp_ in zip(params_of(ctor), dparams):
+        lt = lean_type_of(qt(p_))
+        if lt is None or ("&" in qt(p_) and "const" not in qt(p_)) or "*" in qt(p_):
+            raise Unsupported("%s constructor parameter %s : %s" % (cxx_name, p_.get("name"), qt(p_)))
+        v = tr.var(p_["name"])
+        if v.startswith("m_") or v in tr.bound or v == "truncToInt":
+            raise Unsupported("%s constructor parameter named %s" % (cxx_name, v))
+        if lt in ("Array α", "Array (Cx α)"):
+            tr.arrays[p_["name"]] = (v, lt)
+        tr.declare(v, lt)
+        ps.append((v, lt, qt(p_)))
+        dflt = [c for c in dp_.get("inner", []) if c.get("kind") not in ("FullComment",)]
+        if dflt:
+            if lt not in ("α", "Int"):
+                raise Unsupported("%s constructor: default argument of %s : %s" % (cxx_name, p_["name"], qt(p_)))
+            dtr = CtorTr({}, user_calls=steps_user_calls())
+            defaults.append((v, lt, dtr.e(dflt[0])))
+            if dtr.uses_trunc or dtr.pre:
+                raise Unsupported("%s constructor: default argument of %s computes" % (cxx_name, p_["name"]))
+    if setup:
+        setup(tr)
+    text = ""
+    if own_init:
+        text = tr.init_phase(ctor)
+    body = [c for c in ctor.get("inner", []) if c.get("kind") == "CompoundStmt"]
+    if len(body) != 1:
+        raise Unsupported("%s constructor has no body" % cxx_name)
+    text += tr.stmts([body[0]], CTOR_END)
+    if CTOR_END in text or FALLOFF in text or tr.pre:
+        raise Unsupported("%s constructor: unexpected shape" % cxx_name)
+    out = []
+    if emit_struct:
+        out.append(struct_text(obj_struct, "ALL data members of `%s` (C++ declarations CHECKED against the translator's table): the object a constructor leaves" % cxx_name,
+                               [members[m] for m in order]))
+    out += tr.aux_defs
+    extra = ("(eps : α) " if eps.used else "") + ("(truncToInt : α → Int) " if tr.uses_trunc else "")
+    label = ctor_label or cxx_name
+    if tr.uses_trunc:
+        doc_extra += ("\n`truncToInt` = the C++ conversion `real_t -> int` (truncation towards zero; undefined when the value does not fit an `int`).")
+    if defaults:
+        for v, lt, val in defaults:
+            out.append("/-- default argument of the parameter `%s` of `%s::%s(…)` -/\ndef %sDefault_%s : %s := %s\n" % (
+                v, label, label.split("<")[0], lean, v.rstrip("'"), lt, val))
+    rt = ("%s α" % obj_struct) if pure else ("Except String (%s α)" % obj_struct)
+    out.append("/-- `%s::%s(%s)`: %s the members of the constructed\n"
+               "object.  Members are initialised in declaration order (mem-initialiser, else the default member initialiser), then the body runs.%s -/\n"
+               "def %s %s%s : %s :=\n%s\n" % (
+                   label, label.split("<")[0], ", ".join("%s %s" % (canon_type(t), v) for v, _, t in ps),
+                   "(cannot throw)" if pure else "`.error` = the exception thrown (DSPLIB_ASSERT / DSPLIB_THROW), else", doc_extra,
+                   lean, extra, " ".join("(%s : %s)" % (v, lt) for v, lt, _ in ps), rt, indent(text)))
+    return out, tr
+
+
+def ctors_of(rec, nparams=None, sig=None):
+    cs = [c for c in rec["inner"] if c.get("kind") == "CXXConstructorDecl" and not c.get("isImplicit") and
+          any(x.get("kind") == "CompoundStmt" for x in c.get("inner", []))]
+    if sig is not None:
+        cs = [c for c in cs if canon_type(qt(c)) == sig]
+    if nparams is not None:
+        cs = [c for c in cs if len(params_of(c)) == nparams]
+    return cs
+
+
+# ------------------------------------------------------------------------------------------
+# unit: CtorTuner  (include/dsplib/tuner.h: Tuner::Tuner(int, real_t))
+
+TUNER_TABLE = {"_fs": "int", "_freq": "real_t", "_periodic": "bool", "_phase": "long long"}
+
+
+def gen_ctor_tuner():
+    tu = "#include <dsplib/tuner.h>\n"
+    out = [HEADER % "include/dsplib/tuner.h (constructor `Tuner::Tuner(int sample_rate, real_t freq)`)",
+           "import DspVerif.Gen.StepsBase\n" + STEPS_HEAD[0], STEPS_HEAD[1]]
+    rec = record(clang_ast(tu, "Tuner"), "Tuner")
+    cs = ctors_of(rec)
+    if len(cs) != 1:
+        raise Unsupported("Tuner: expected exactly one user-written constructor, found %d" % len(cs))
+    texts, tr = gen_ctor(rec, cs[0], TUNER_TABLE, "tunerCtor", "Tuner", "TunerObj", "void (int, real_t)")
+    out += texts
+    out.append("end Gen\nend Dsp\n")
+    return "\n".join(out)
+
+
+# ------------------------------------------------------------------------------------------
+# unit: CtorDyn  (constructors of Compressor, Limiter, NoiseGate, MAFilter<real_t>, Agc)
+
+COMPRESSOR_TABLE = {"T_": "const real_t", "R_": "const int", "W_": "const real_t", "wA_": "real_t", "wR_": "real_t", "gs_": "real_t"}
+LIMITER_TABLE = {"T_": "const real_t", "W_": "const real_t", "wA_": "const real_t", "wR_": "const real_t", "gs_": "real_t"}
+NOISEGATE_TABLE = {"tlin_": "const real_t", "wA_": "const real_t", "wR_": "const real_t", "tH_": "const int", "cA_": "int", "lg_": "real_t"}
+MAFILTER_TABLE = {"_buf": "base_array<double>", "_n": "int", "_pos": "int", "_accum": "double"}
+AGCIMPL_TABLE = {"trise": "real_t", "tfall": "real_t", "max_gain": "real_t", "target": "real_t", "gain": "real_t", "maflt": "MAFilterR"}
+
+
+def gen_ctor_dyn():
+    prefetch([(DYN_TU, "Compressor"), (DYN_TU, "Limiter"), (DYN_TU, "NoiseGate")] +
+             [('#include "agc.cpp"\n', f) for f in ("MAFilter", "AgcImpl", "Agc::Agc", "dsplib::Agc")])
+    out = [HEADER % "include/dsplib/audio/compressor.h, limiter.h, noise-gate.h (constructors), lib/ma-filter.h (`MAFilter<real_t>::MAFilter(int)`), "
+                    "lib/agc.cpp (`Agc::Agc(real_t, real_t, int, real_t, real_t)`, `struct AgcImpl` default member initialisers)",
+           "import DspVerif.Gen.StepsDyn\nimport DspVerif.Gen.StepsArray\n" + STEPS_HEAD[0], STEPS_HEAD[1]]
+    for cls, lean, table, sig in (
+            ("Compressor", "compressorCtor", COMPRESSOR_TABLE, "void (int, real_t, int, real_t, real_t, real_t)"),
+            ("Limiter", "limiterCtor", LIMITER_TABLE, "void (int, real_t, real_t, real_t, real_t)"),
+            ("NoiseGate", "noiseGateCtor", NOISEGATE_TABLE, "void (int, real_t, real_t, real_t, real_t)")):
+        rec = record(clang_ast(DYN_TU, cls), cls)
+        cs = ctors_of(rec)
+        if len(cs) != 1:
+            raise Unsupported("%s: expected exactly one user-written constructor, found %d" % (cls, len(cs)))
+        texts, tr = gen_ctor(rec, cs[0], table, lean, cls, cls + "Obj", sig)
+        out += texts
+    # --- MAFilter<real_t>::MAFilter(int n)
+    docs = clang_ast('#include "agc.cpp"\n', "MAFilter")
+    tmpl = [d for d in docs if d.get("kind") == "ClassTemplateDecl" and d.get("name") == "MAFilter"]
+    if len(tmpl) != 1:
+        raise Unsupported("class template MAFilter not found")
+    specs = [c for c in tmpl[0]["inner"] if c.get("kind") == "ClassTemplateSpecializationDecl" and
+             [canon_type(qt(a)) for a in c.get("inner", []) if a.get("kind") == "TemplateArgument"] == ["double"] and
+             any(x.get("kind") == "FieldDecl" for x in c.get("inner", []))]
+    if len(specs) != 1:
+        raise Unsupported("instantiation MAFilter<double> not found")
+    mrec = specs[0]
+    cs = ctors_of(mrec)
+    if len(cs) != 1:
+        raise Unsupported("MAFilter<real_t>: expected exactly one user-written constructor, found %d" % len(cs))
+    texts, tr = gen_ctor(mrec, cs[0], MAFILTER_TABLE, "maFilterCtor", "MAFilter<real_t>", "MAFilterState", "void (int)", emit_struct=False, pure=True,
+                         doc_extra="\n(`base_array(int n)` with a negative `n` throws `std::length_error` in C++: see `arrNew`.)")
+    out += texts
+    # the assignment `maflt = MAFilterR(n)` must be the implicit (memberwise) one
+    asg = [m for m in mrec["inner"] if m.get("kind") == "CXXMethodDecl" and m.get("name") == "operator="]
+    if not asg or any(not m.get("isImplicit") for m in asg):
+        raise Unsupported("MAFilter<real_t> has a user-written operator=")
+    subctors = {"MAFilterR": {"lean": "maFilterCtor", "sig": "void (int)", "ret": "MAFilterState α",
+                              "assign": ["MAFilter<double> &(MAFilter<double> &&) noexcept", "MAFilter<double> &(const MAFilter<double> &)"]},
+                }
+    subctors["MAFilter<double>"] = subctors["MAFilterR"]
+    # --- Agc::Agc(real_t target_level, real_t max_gain, int average_len, real_t t_rise, real_t t_fall): the object is `*_d` (AgcImpl)
+    irec = record(clang_ast('#include "agc.cpp"\n', "AgcImpl"), "AgcImpl")
+    arec = record(clang_ast('#include "agc.cpp"\n', "dsplib::Agc"), "Agc")
+    if {c["name"]: canon_type(qt(c)) for c in arec["inner"] if c.get("kind") == "FieldDecl"} != {"_d": "std::shared_ptr<AgcImpl>"}:
+        raise Unsupported("Agc: data members are not just `std::shared_ptr<AgcImpl> _d`")
+    ictors = [c for c in irec["inner"] if c.get("kind") == "CXXConstructorDecl"]
+    if any(not c.get("isImplicit") for c in ictors):
+        raise Unsupported("AgcImpl has a user-written constructor")
+    idef = [c for c in ictors if canon_type(qt(c)).startswith("void ()")]
+    if len(idef) != 1 or not any(x.get("kind") == "CXXCtorInitializer" for x in idef[0].get("inner", [])):
+        raise Unsupported("AgcImpl: implicit default constructor (with its member initialisers) not found")
+    want = "void (real_t, real_t, int, real_t, real_t)"
+    acs = [d for d in clang_ast('#include "agc.cpp"\n', "Agc::Agc") if d.get("kind") == "CXXConstructorDecl" and canon_type(qt(d)) == want and
+           any(x.get("kind") == "CompoundStmt" for x in d.get("inner", []))]
+    if len(acs) != 1:
+        raise Unsupported("Agc::Agc(%s) not found" % want)
+    actor = acs[0]
+    inits = [c for c in actor.get("inner", []) if c.get("kind") == "CXXCtorInitializer"]
+    if not (len(inits) == 1 and inits[0].get("anyInit", {}).get("name") == "_d" and len(inits[0].get("inner", [])) == 1 and
+            inits[0]["inner"][0].get("kind") == "CXXConstructExpr" and not inits[0]["inner"][0].get("inner")):
+        raise Unsupported("Agc::Agc: `_d` is not default-constructed (null) by the initialiser list")
+
+    def is_d(n):
+        """`_d` of `this`"""
+        n = unwrap(n)
+        return n.get("kind") == "MemberExpr" and n.get("name") == "_d" and unwrap(n["inner"][0]).get("kind") == "CXXThisExpr"
+
+    def obj_pred(n):
+        """`_d.operator->()` / `*_d`"""
+        n = unwrap(n)
+        if n.get("kind") == "CXXOperatorCallExpr" and len(n["inner"]) == 2:
+            cal = unwrap(n["inner"][0])
+            if cal.get("kind") == "DeclRefExpr" and cal.get("referencedDecl", {}).get("name") in ("operator->", "operator*"):
+                return is_d(n["inner"][1])
+        return False
+
+    state = {"made": False}
+
+    def make_hook(tr, st):
+        """`_d = std::make_shared<AgcImpl>();` — creates the object: AgcImpl's implicit default constructor = its default member initialisers"""
+        su = st
+        while su.get("kind") == "ExprWithCleanups" and len(su.get("inner", [])) == 1:
+            su = su["inner"][0]
+        if not (su.get("kind") == "CXXOperatorCallExpr" and tr.callee_name(su) == "operator=" and is_d(su["inner"][1])):
+            if find_all(st, lambda x: x.get("kind") == "MemberExpr" and x.get("name") == "_d" and not find_all(st, obj_pred)):
+                raise Unsupported("Agc::Agc: `_d` used other than through `_d->member` / `_d = std::make_shared<AgcImpl>()`")
+            return None
+        rhs = su["inner"][2]
+        while rhs.get("kind") in ("MaterializeTemporaryExpr", "CXXBindTemporaryExpr"):
+            rhs = rhs["inner"][0]
+        if not (rhs.get("kind") == "CallExpr" and tr.callee_name(rhs) == "make_shared" and len(rhs["inner"]) == 1 and
+                canon_type(qt(rhs)) in ("shared_ptr<_NonArray<AgcImpl>>", "std::shared_ptr<AgcImpl>", "shared_ptr<AgcImpl>")):
+            raise Unsupported("Agc::Agc: `_d` is assigned something other than `std::make_shared<AgcImpl>()`")
+        if state["made"] or tr.frames or tr.bound & {tr.mvar(m) for m in tr.members}:
+            raise Unsupported("Agc::Agc: `_d = std::make_shared<AgcImpl>()` is not the single, first statement touching the object")
+        state["made"] = True
+        return tr.init_phase(idef[0])
+
+    def setup(tr):
+        tr.stmt_hooks.append(make_hook)
+
+    texts, tr = gen_ctor(irec, actor, AGCIMPL_TABLE, "agcCtor", "AgcImpl", "AgcObj", want, subobj_types={"MAFilterR": "MAFilterState α"},
+                         subctors=subctors, obj_pred=obj_pred, own_init=False, setup=setup, ctor_label="Agc",
+                         doc_extra="\nThe object is `*_d`: `_d = std::make_shared<AgcImpl>()` runs AgcImpl's implicit default constructor "
+                                   "(the default member initialisers of `struct AgcImpl`), the statements behind assign its members.")
+    if not state["made"]:
+        raise Unsupported("Agc::Agc: `_d = std::make_shared<AgcImpl>()` not found")
+    out += texts
+    out.append("end Gen\nend Dsp\n")
+    return "\n".join(out)
+
+
+# ------------------------------------------------------------------------------------------
+# unit: CtorAdaptive  (constructors of LmsFilter<T>, RlsFilter<T>, T = real_t and cmplx_t)
+
+
+def template_specs(docs, name):
+    """instantiations of the class template `name` that have data members: canonical template argument -> record"""
+    specs = {}
+    for d in docs:
+        cands = [d] if d.get("kind") == "ClassTemplateSpecializationDecl" else \
+            [c for c in d.get("inner", []) if c.get("kind") == "ClassTemplateSpecializationDecl"] if d.get("kind") == "ClassTemplateDecl" else []
+        for c in cands:
+            if c.get("name") == name and any(x.get("kind") == "FieldDecl" for x in c.get("inner", [])):
+                ta = [canon_type(qt(a)) for a in c.get("inner", []) if a.get("kind") == "TemplateArgument"]
+                if len(ta) == 1:
+                    specs[ta[0]] = c
+    return specs
+
+
+def lms_table(targ):
+    return {"_u": "base_array<%s>" % targ, "_w": "base_array<%s>" % targ, "_mu": "real_t", "_len": "int",
+            "_locked": "bool", "_method": "LmsType", "_lk": "real_t"}
+
+
+def rls_table(targ):
+    return {"_n": "int", "_mu": "real_t", "_u": "base_array<%s>" % targ, "_w": "base_array<%s>" % targ,
+            "_p": "base_array<%s>" % targ, "_locked": "bool"}
+
+
+def gen_ctor_adaptive():
+    prefetch([(LMS_TU, "LmsFilter"), (LMS_TU, "LmsType"), (RLS_TU, "RlsFilter")])
+    out = [HEADER % "include/dsplib/lms.h (`LmsFilter<T>::LmsFilter(int, real_t, LmsType, real_t)`), include/dsplib/rls.h "
+                    "(`RlsFilter<T>::RlsFilter(int, real_t, real_t)`), T = real_t and cmplx_t",
+           "import DspVerif.Gen.StepsAdaptive\n" + STEPS_HEAD[0], STEPS_HEAD[1]]
+    load_enum(LMS_TU, "LmsType")
+    lspecs = template_specs(clang_ast(LMS_TU, "LmsFilter"), "LmsFilter")
+    rspecs = template_specs(clang_ast(RLS_TU, "RlsFilter"), "RlsFilter")
+    if sorted(lspecs) != ["cmplx_t", "double"] or sorted(rspecs) != ["cmplx_t", "double"]:
+        raise Unsupported("LmsFilter / RlsFilter instantiations found: %s / %s" % (sorted(lspecs), sorted(rspecs)))
+    for targ, suffix in (("double", "R"), ("cmplx_t", "C")):
+        tname = "real_t" if targ == "double" else "cmplx_t"
+        for specs, cls, lean, table, sig in (
+                (lspecs, "LmsFilter", "lms%sCtor" % suffix, lms_table(targ), "void (int, real_t, LmsType, real_t)"),
+                (rspecs, "RlsFilter", "rls%sCtor" % suffix, rls_table(targ), "void (int, real_t, real_t)")):
+            rec = specs[targ]
+            cs = ctors_of(rec)
+            # default arguments are instantiated lazily: they are read from the constructor of the class template itself
+            pat = ctors_of(record(clang_ast(LMS_TU if cls == "LmsFilter" else RLS_TU, cls), cls))
+            if len(cs) != 1 or len(pat) != 1:
+                raise Unsupported("%s<%s>: expected exactly one user-written constructor, found %d" % (cls, tname, len(cs)))
+            texts, tr = gen_ctor(rec, cs[0], table, lean, "%s<%s>" % (cls, tname), "%s%sObj" % (cls, suffix), sig, pure=True, defaults_from=pat[0],
+                                 doc_extra="\n(`base_array(int n)` with a negative `n` throws `std::length_error` in C++: see `arrNew`.)")
+            out += texts
+    out.append("end Gen\nend Dsp\n")
+    return "\n".join(out)
+
+
+# ------------------------------------------------------------------------------------------
+# unit: CtorMedian  (lib/medfilt.cpp: MedianFilter::MedianFilter(int, real_t))
+
+MEDIAN_TABLE = {"_d": "arr_real", "_s": "arr_real", "_i": "int", "_n": "const int"}
+
+
+def gen_ctor_median():
+    prefetch([(MED_TU, "MedianFilter"), (MED_TU, "MedianFilter::MedianFilter")])
+    out = [HEADER % "lib/medfilt.cpp (`MedianFilter::MedianFilter(int n, real_t init_value)`), include/dsplib/medfilt.h (members, default arguments)",
+           "import DspVerif.Gen.StepsMedian\n" + STEPS_HEAD[0], STEPS_HEAD[1]]
+    rec = record(clang_ast(MED_TU, "MedianFilter"), "MedianFilter")
+    want = "void (int, real_t)"
+    cs = [d for d in clang_ast(MED_TU, "MedianFilter::MedianFilter") if d.get("kind") == "CXXConstructorDecl" and canon_type(qt(d)) == want and
+          any(x.get("kind") == "CompoundStmt" for x in d.get("inner", []))]
+    decl = ctors_of_decl(rec, want)
+    if len(cs) != 1 or len(decl) != 1:
+        raise Unsupported("MedianFilter::MedianFilter(int, real_t) not found")
+    texts, tr = gen_ctor(rec, cs[0], MEDIAN_TABLE, "medianCtor", "MedianFilter", "MedianFilterObj", want, defaults_from=decl[0])
+    out += texts
+    out.append("end Gen\nend Dsp\n")
+    return "\n".join(out)
+
+
+def ctors_of_decl(rec, sig):
+    """constructor DECLARATIONS (with or without body) of the record with the given canonical signature"""
+    return [c for c in rec["inner"] if c.get("kind") == "CXXConstructorDecl" and not c.get("isImplicit") and canon_type(qt(c)) == sig]
+
+
+# ------------------------------------------------------------------------------------------
 UNITS = {}
 
 
@@ -4423,14 +4977,19 @@ unit("Consts", ["lib/primes.cpp", "lib/fft/primes-fft.h", "lib/fft/fft.cpp", "CM
 unit("StepsBase", ["include/dsplib/array.h", "lib/math.cpp", "include/dsplib/math.h"])(gen_steps_base)
 unit("StepsArray", ["include/dsplib/array.h", "include/dsplib/types.h", "lib/math.cpp"])(gen_steps_array)
 unit("StepsAdaptive", ["include/dsplib/lms.h", "include/dsplib/rls.h"])(gen_steps_adaptive)
+unit("CtorAdaptive", ["include/dsplib/lms.h", "include/dsplib/rls.h"])(gen_ctor_adaptive)
 unit("StepsTuner", ["include/dsplib/tuner.h", "include/dsplib/types.h"])(gen_steps_tuner)
+unit("CtorTuner", ["include/dsplib/tuner.h", "include/dsplib/types.h"])(gen_ctor_tuner)
 unit("StepsMedian", ["lib/medfilt.cpp", "include/dsplib/medfilt.h"])(gen_steps_median)
+unit("CtorMedian", ["lib/medfilt.cpp", "include/dsplib/medfilt.h", "include/dsplib/array.h"])(gen_ctor_median)
 unit("StepsSlice", ["include/dsplib/array.h", "include/dsplib/slice.h"])(gen_steps_slice)
 unit("StepsFir", ["lib/fir.cpp", "include/dsplib/fir.h"])(gen_steps_fir)
 unit("StepsDelay", ["include/dsplib/delay.h", "lib/hilbert.cpp", "include/dsplib/hilbert.h"])(gen_steps_delay)
 unit("StepsSnr", ["lib/snr.cpp", "include/dsplib/math.h"])(gen_steps_snr)
 unit("StepsResample", ["lib/resample/fir-decimator.cpp", "lib/resample/fir-interpolator.cpp", "lib/resample/fir-rate-converter.cpp",
                        "include/dsplib/resample.h"])(gen_steps_resample)
+unit("CtorDyn", ["include/dsplib/audio/compressor.h", "include/dsplib/audio/limiter.h", "include/dsplib/audio/noise-gate.h",
+                 "lib/agc.cpp", "lib/ma-filter.h", "include/dsplib/agc.h"])(gen_ctor_dyn)
 unit("StepsDyn", ["include/dsplib/audio/compressor.h", "include/dsplib/audio/limiter.h", "include/dsplib/audio/noise-gate.h",
                   "lib/agc.cpp", "lib/ma-filter.h", "include/dsplib/agc.h"])(gen_steps_dyn)
 
